@@ -84,6 +84,10 @@ def atoms(f, ctx, x, pol, out=None, depth=0, st=None):
         # x == 0 / x != 0  ->  truthiness of x
         if rc == 0 and nop == '==':
             return atoms(f, ctx, l, not p, out, depth + 1, st)
+        # b > 0 / b <= 0 for a boolean b (`while (!empty() > 0)`) -> truthiness of b
+        le = f.x(f.skip(l))
+        if rc == 0 and nop == '<=' and le is not None and (le.get('ty') == 'bool' or (le['k'] == 'unop' and le['op'] == '!')):
+            return atoms(f, ctx, l, not p, out, depth + 1, st)
         rs = str(rc) if rc is not None else f.show(r, ctx)
         out.append(('%s %s %s' % (f.show(l, ctx), nop, rs), p))
         # additional derived facts for orderings against constants
